@@ -108,9 +108,10 @@ def queries(C, optim_strands=(None,)):
         ('deletion', 'chr1', 0, '1M1D1M', 2, {0, 2}, (1,)),       # whether the deleted base counts as overlapped is left open
         ('othercontig', 'chr2', 1, '2M', 2, {1, 2}, ()),
         ('unknowncontig', 'chrU', 1, '2M', 2, {1, 2}, ()),
+        ('unmapped', 'chr1', 1, None, 2, (), ()),                 # unmapped read placed at its mate's position: no aligned base
     ]
     for kind, contig, pos, cigar, qlen, positions, deleted in extra:
-        r = make_read(h, f'r{n}', 'A' * qlen, contig, pos, cigar, paired=False, tags=tags)
+        r = make_read(h, f'r{n}', 'A' * qlen, contig, pos, cigar, paired=False, tags=tags, unmapped=cigar is None)
         reads.append((r, contig, frozenset(positions), frozenset(deleted), (kind, contig, pos, cigar)))
         n += 1
     _Q[key] = (pts, rngs, reads)
@@ -122,7 +123,7 @@ _MQ = {}
 
 def molecule_reads(C):
     """Read groups for the molecule / fragment level: (list of fragments, each a [R1, R2] pair of read specs), contig,
-    aligned positions, deleted positions, strand of the molecule (False forward / True reverse), description.
+    aligned positions, deleted positions, strand of the molecule (False forward / True reverse / None unknown), description.
     A read spec is (pos, cigar, query length, reverse, is_read1, paired)."""
     if C in _MQ:
         return _MQ[C]
@@ -138,6 +139,7 @@ def molecule_reads(C):
                         ('spliced', a, b, c, d, 'rev' if rev else 'fwd')))
         out.append(([[(1, '1S2M1S', 4, rev, True, False), None]], 'chr1', frozenset({1, 2}), frozenset(), rev, ('softclip', 'rev' if rev else 'fwd')))
         out.append(([[(0, '1M1D1M', 2, rev, True, False), None]], 'chr1', frozenset({0, 2}), frozenset({1}), rev, ('deletion', 'rev' if rev else 'fwd')))
+    out.append(([[(1, None, 2, False, True, False), None]], 'chr1', frozenset(), frozenset(), None, ('unmapped', 'placed')))   # no strand
     # mate pairs: the molecule has the strand of R1 and covers the bases of both mates
     out.append(([[(0, '2M', 2, False, True, True), (C, '2M', 2, True, False, True)]], 'chr1', frozenset({0, 1, C, C + 1}), frozenset(), False,
                 ('pair', 'R1fwd')))
@@ -166,7 +168,7 @@ def build_reads(spec_fragments, contig, tag='m'):
                 other = pair[1] if is_r1 else pair[0]
                 mate = (contig, other[0], other[3], False)
             reads.append(make_read(h, f'{tag}{n}', 'A' * qlen, contig, pos, cigar, reverse=rev, read1=is_r1, paired=paired, mate=mate,
-                                   tags={'SM': 'X_1', 'RX': 'AAA'}))
+                                   tags={'SM': 'X_1', 'RX': 'AAA'}, unmapped=cigar is None))
         n += 1
         frags.append(reads)
     return frags
@@ -203,25 +205,31 @@ def gtf_text(recs):
 
 
 def bed_records(C):
-    """A fixed small BED file loaded as a SECOND round into a container: 3-, 4- and 6-column lines (strand-less and stranded),
-    a zero-length line.  BED intervals are half open: [s, e) covers s..e-1; whether base e belongs to the stored feature is
-    the loader's business and left open by the oracle."""
+    """A fixed small BED file loaded as a SECOND round into a container: 3-, 4-, 6- and 12-column lines (strand-less and stranded),
+    a zero-length line, a line with two blocks (one feature per block, both under the line's name).  BED intervals are half open:
+    [s, e) covers s..e-1; whether base e belongs to the stored feature is the loader's business and left open by the oracle.
+    -> (contig, start, end, name, strand, columns, blocks or None)"""
     return [
-        ('chr1', 0, 2, None, None, 3),      # name = line number
-        ('chr1', 1, C + 1, 'b1', None, 4),
-        ('chr1', 2, 3, 'b2', '-', 6),
-        ('chr1', 1, 1, 'b3', '+', 6),
-        ('chr2', 0, 1, 'b4', '+', 6),
+        ('chr1', 0, 2, None, None, 3, None),      # name = line number
+        ('chr1', 1, C + 1, 'b1', None, 4, None),
+        ('chr1', 2, 3, 'b2', '-', 6, None),
+        ('chr1', 1, 1, 'b3', '+', 6, None),
+        ('chr2', 0, 1, 'b4', '+', 6, None),
+        ('chr1', 0, C + 1, 'b5', '+', 12, ((0, 1), (C, 1))),      # blocks [0,1) and [C,C+1)
     ]
 
 
 def bed_text(recs):
     lines = ['track name=verif']
-    for contig, s, e, name, strand, ncol in recs:
+    for contig, s, e, name, strand, ncol, blocks in recs:
         if ncol == 3:
             lines.append(f'{contig}\t{s}\t{e}')
         elif ncol == 4:
             lines.append(f'{contig}\t{s}\t{e}\t{name}')
-        else:
+        elif ncol == 6:
             lines.append(f'{contig}\t{s}\t{e}\t{name}\t0\t{strand}')
+        else:
+            sizes = ','.join(str(b[1]) for b in blocks) + ','
+            starts = ','.join(str(b[0]) for b in blocks) + ','
+            lines.append(f'{contig}\t{s}\t{e}\t{name}\t0\t{strand}\t{s}\t{e}\t0\t{len(blocks)}\t{sizes}\t{starts}')
     return '\n'.join(lines) + '\n'
